@@ -57,6 +57,29 @@ INNER = ("let mut sj: usize = scope.len();\n"
          "                decreases sj,\n"
          "            { sj = sj - 1; let slot = &scope[sj];")
 
+# R10f: `if let Some(slot) = scope.iter_mut().rev().find(|slot| P) {` written as the loop std defines it to be (last element first,
+# the first one satisfying P), the found element named by its index
+FIND = ("let mut sj: usize = scope.len(); let mut found: Option<usize> = None;\n"
+        "            while sj > 0\n"
+        "                invariant_except_break found is None, forall|j2: int| sj <= j2 < scope@.len() ==> !#[trigger] holds(me, si as int, j2, local),\n"
+        "                invariant sj <= scope@.len(), lo <= si < me.env@.len(), *scope == me.env@[si as int],\n"
+        "                ensures found is Some ==> found->Some_0 < scope@.len() && holds(me, si as int, found->Some_0 as int, local) && (forall|j2: int| found->Some_0 < j2 < scope@.len() ==> !#[trigger] holds(me, si as int, j2, local)),\n"
+        "                        found is None ==> forall|j2: int| 0 <= j2 < scope@.len() ==> !#[trigger] holds(me, si as int, j2, local),\n"
+        "                decreases sj,\n"
+        "            { sj = sj - 1; let slot = &scope[sj]; if slot.is(local) { found = Some(sj); break; } }\n"
+        "            if let Some(sj) = found {")
+
+# R10g: the nested `X.iter().rev().find_map(|scope| { scope.iter().rev().find_map(|slot| if P { Some(&slot.value) } else { None }) })` written as
+# the two loops std defines it to be; the first `Some` ends both (returned as the slot's position)
+INNER_FM = INNER + " if slot.is(local) { return Some((si, sj)); } }"
+
+def search_ensures(ok, some0, none):
+    return [
+        "%s ==> floor_of(me, local) <= %s.0 < me.env@.len() && %s.1 < me.env@[%s.0 as int]@.len() && holds(me, %s.0 as int, %s.1 as int, local)" % (ok, some0, some0, some0, some0, some0),
+        "%s ==> forall|s2: int, j2: int| %s.0 < s2 < me.env@.len() && 0 <= j2 < me.env@[s2]@.len() ==> !#[trigger] holds(me, s2, j2, local)" % (ok, some0),
+        "%s ==> forall|j2: int| %s.1 < j2 < me.env@[%s.0 as int]@.len() ==> !#[trigger] holds(me, %s.0 as int, j2, local)" % (ok, some0, some0, some0),
+        "%s ==> forall|s2: int, j2: int| floor_of(me, local) <= s2 < me.env@.len() && 0 <= j2 < me.env@[s2]@.len() ==> !#[trigger] holds(me, s2, j2, local)" % none]
+
 UNIT = VUnit(
     name="activation_floor",
     props=["C04"],
@@ -66,7 +89,8 @@ UNIT = VUnit(
              "R10d: `X.iter().rev().find_map(|(function, base)| (COND).then_some(*base)).unwrap_or(0)` is written as the loop std defines it to be: from the last element to the first, the first element satisfying COND gives the value, 0 if none",
              "R10e: in lookup_local_mut the two `for .. in ...iter_mut().rev()` loops are written as index loops from the last element down (to `floor` for the slice `env[floor..]`), and the returned `&mut slot.value` as the slot's position (scope index, slot index); LocalSlot is reduced to its `id`",
              "every activation mark's base is at most env.len() (precondition of lookup_local_mut: established by call_prologue, which pushes the mark for the scope it has just opened -- unit block_exec; not re-proved as a data-structure invariant here). Without it `env[floor..]` panics",
-             "lookup_local_env and assign_bound_local (find / find_map closures over the same slice) are not extracted"],
+             "R10f: in assign_bound_local `scope.iter_mut().rev().find(|slot| slot.id == Some(local))` is written as its loop (last element first); the slot handed to overwrite_slot is returned as its position, the write itself (overwrite_slot: unit store_sites) and the three locals it needs are dropped, the UndeclaredVariable error is `Err(())`",
+             "R10g: in lookup_local_env the nested `iter().rev().find_map(..)` chain is written as its two loops (last element first, the first `Some` ends both), the `&slot.value` as the slot's position"],
     lemma_obligations=["lemma_newest_bounded"],
     items=[
         Fn("local_search_floor", impl="impl Runtime",
@@ -108,5 +132,34 @@ UNIT = VUnit(
                      Rw("R10e", r"slot\.id == Some\(local\)", "slot.is(local)", min_matches=1),
                      Rw("R10e", r"return Some\(&mut slot\.value\);", "return Some((si, sj));", min_matches=1)],
            attrs="#[verifier::loop_isolation(false)]", vacuity="-", real_name="Runtime::lookup_local_mut"),
+        Fn("lookup_local_env", impl="impl Runtime",
+           sig="fn lookup_local_env(me: &Ra, local: LocalId) -> (res: Option<(usize, usize)>)",
+           expect_sig=r"fn lookup_local_env\(&self, local: LocalId\) -> Option<&Value<'a>>",
+           requires=["forall|i: int| 0 <= i < me.activations@.len() ==> (#[trigger] me.activations@[i]).1 <= me.env@.len()"],
+           ensures=search_ensures("res is Some", "res->Some_0", "res is None"),
+           rewrites=[Rw("R2", r"let (\w+) = self\.local_search_floor\(local\);",
+                        r"let \1 = local_search_floor(me, local);\n        proof { lemma_newest_bounded(me.activations@, owner_of(local), me.activations@.len() as int, me.env@.len() as int); }", min_matches=0),
+                     Rw("R2", r"self\.local_search_floor\(local\)", "local_search_floor(me, local)", min_matches=0),
+                     Rw("R10g", r"self\.env\[([\w .+\-()]+)\.\.\]\.iter\(\)\.rev\(\)\.find_map\(\|scope\| \{", OUTER, min_matches=0),
+                     Rw("R10g", r"self\.env(?:\[\.\.\])?\.iter\(\)\.rev\(\)\.find_map\(\|scope\| \{", outer("0"), min_matches=0),
+                     Rw("R10g", r"scope\s*\.iter\(\)\s*\.rev\(\)\s*\.find_map\(\|slot\| if slot\.id == Some\(local\) \{ Some\(&slot\.value\) \} else \{ None \}\)", INNER_FM, min_matches=1),
+                     Rw("R10g", r"\}\)\s*\}\s*$", "}\n        None\n    }", min_matches=1)],
+           attrs="#[verifier::loop_isolation(false)]", vacuity="-", real_name="Runtime::lookup_local_env"),
+        # the slot an assignment by local id overwrites: Ok names the slot handed to overwrite_slot, Err is UndeclaredVariable
+        Fn("assign_bound_local", impl="impl Runtime",
+           sig="fn assign_bound_local(me: &Ra, local: LocalId) -> (res: Result<(usize, usize), ()>)",
+           expect_sig=r"fn assign_bound_local\(\s*&mut self,\s*local: LocalId,\s*val: Value<'a>,\s*span: Span,?\s*\) -> Result<\(\), RuntimeError>",
+           requires=["forall|i: int| 0 <= i < me.activations@.len() ==> (#[trigger] me.activations@[i]).1 <= me.env@.len()"],
+           ensures=search_ensures("res is Ok", "res->Ok_0", "res is Err"),
+           rewrites=[Rw("R8", r"let has_frame = self\.has_frame_arena\(\);|let pool = &self\.pool;|let frame = self\.frame;", "", min_matches=0),
+                     Rw("R2", r"let (\w+) = self\.local_search_floor\(local\);",
+                        r"let \1 = local_search_floor(me, local);\n        proof { lemma_newest_bounded(me.activations@, owner_of(local), me.activations@.len() as int, me.env@.len() as int); }", min_matches=0),
+                     Rw("R2", r"self\.local_search_floor\(local\)", "local_search_floor(me, local)", min_matches=0),
+                     Rw("R10e", r"for scope in self\.env\[([\w .+\-()]+)\.\.\]\.iter_mut\(\)\.rev\(\) \{", OUTER, min_matches=0),
+                     Rw("R10e", r"for scope in self\.env(?:\[\.\.\])?\.iter_mut\(\)\.rev\(\) \{", outer("0"), min_matches=0),
+                     Rw("R10f", r"if let Some\(slot\) = scope\.iter_mut\(\)\.rev\(\)\.find\(\|slot\| slot\.id == Some\(local\)\) \{", FIND, min_matches=1),
+                     Rw("R10f", r"Self::overwrite_slot\(&mut slot\.value, val, has_frame, pool, frame\);\s*return Ok\(\(\)\);", "return Ok((si, sj));", min_matches=1),
+                     Rw("R8", r"Err\(RuntimeError::new\(RuntimeErrorKind::UndeclaredVariable, span\)\)", "Err(())", min_matches=1)],
+           attrs="#[verifier::loop_isolation(false)] #[verifier::allow_complex_invariants]", vacuity="-", real_name="Runtime::assign_bound_local"),
     ],
 )
